@@ -719,7 +719,7 @@ func prop(c Case, r *pbt.R) error {
 		hs[i] = h
 		use |= h.uses
 	}
-	if len(c.Calls) > 8 || len(c.A) > 64 || len(c.B) > 64 || c.SpareA > 64 || c.SpareB > 64 {
+	if len(c.Calls) > 8 || len(c.A) > 256 || len(c.B) > 256 || c.SpareA > 64 || c.SpareB > 64 {
 		return fmt.Errorf("harness: case outside the supported size")
 	}
 	e := newEnv(&c, use)
@@ -939,12 +939,16 @@ func enumPair(s pbt.Src, thorough bool) Case {
 	return fill(s, scopeOf(thorough, 2), []*helper{registry[pr[0]], registry[pr[1]]})
 }
 
-// random: longer slices, wider values, larger spare capacities, sequences of up to 5 calls
+// random: longer slices (one case in six: up to 20..130 elements), wider values, larger spare capacities, sequences of up to 5 calls
 // (every earlier result is re-read after every later call); one call in three is in-place.
 func genN(s pbt.Src, thorough bool, minCalls, maxCalls int) Case {
 	maxLen := 10
 	if thorough {
 		maxLen = 16
+	}
+	if s.Intn(6) == 0 {
+		// long arguments: beyond the sizes (16, 32, 64, 128) at which an implementation might change strategy
+		maxLen = pbt.Pick(s, 20, 40, 70, 130)
 	}
 	val := func(s pbt.Src) int { return pbt.Range(s, -3, 9) }
 	c := Case{A: pbt.Seq(s, 0, maxLen, val), B: pbt.Seq(s, 0, maxLen, val)}
